@@ -10,7 +10,7 @@ from . import explore, sandbox
 # value specs (python data) -> fresh Vyxal values per case
 V_FULL = [3, 0, -2, Fraction(1, 2), "ab", "", [1, 2, 3], [], [[1, 2], [3]], ["a", "b"], ("lazy", [1, 2, 3])]
 V_QUICK = [3, 0, Fraction(1, 2), "ab", [1, 2, 3], [[1, 2], [3]], ("lazy", [1, 2, 3])]
-V_TRIAD = [3, 0, "ab", [1, 2, 3], [[1, 2], [3]], ("lazy", [1, 2, 3])]
+V_TRIAD = [3, 0, "ab", [1, 2, 3], [[1, 2], [3]], ("lazy", [1, 2, 3]), [[], 1]]
 V_MOD = [3, "ab", [1, 2, 3]]
 
 WHOLE_STACK = {"W", "^", "!", "â€ž", "â€Ÿ", "È®", "â€ ", "Â¨áº‡"}   # documented whole-stack operations
@@ -19,9 +19,28 @@ NONDETERMINISTIC = {"â„…", "Ãžâ„…", "ÃžB", "kD", "kN", "ká¸‹", "ká¸Š", "kÃ°", "Â
 EXIT = {"Q"}
 
 
+_FN_CODE = []
+
+
+def make_fn():
+    """a fresh lambda value (Î»â€º;) produced by the real transpiler"""
+    if not _FN_CODE:
+        _FN_CODE.append(compile(sandbox.transpile("Î»â€º;"), "<fn>", "exec"))
+    ns = sandbox.base_namespace()
+    st = []
+    ns["stack"], ns["ctx"] = st, sandbox.fresh_ctx()
+    exec(_FN_CODE[0], ns)
+    return st[-1]
+
+
 def make(spec):
     import sympy
     from vyxal.LazyList import LazyList
+
+    if isinstance(spec, tuple) and spec[0] == "fn":
+        return make_fn()
+    if isinstance(spec, tuple) and spec[0] == "fnlist":
+        return [make_fn(), 5]
 
     if isinstance(spec, tuple) and spec[0] == "lazy":
         return LazyList(iter([make(x) for x in spec[1]]))
@@ -34,6 +53,10 @@ def make(spec):
 
 def denote(spec):
     """The python value a spec denotes (what pyval() of an unchanged value must give)."""
+    if isinstance(spec, tuple) and spec[0] == "fn":
+        return ("fn",)
+    if isinstance(spec, tuple) and spec[0] == "fnlist":
+        return [("fn",), 5]
     if isinstance(spec, tuple) and spec[0] == "lazy":
         return [denote(x) for x in spec[1]]
     if isinstance(spec, list):
@@ -42,12 +65,16 @@ def denote(spec):
 
 
 def spec_name(spec):
+    if isinstance(spec, tuple) and spec[0] in ("fn", "fnlist"):
+        return {"fn": "<lambda Î»â€º;>", "fnlist": "[<lambda Î»â€º;>, 5]"}[spec[0]]
     if isinstance(spec, tuple):
         return "lazy" + repr(spec[1])
     return repr(spec) if not isinstance(spec, Fraction) else str(spec)
 
 
 def kind_of(spec):
+    if isinstance(spec, tuple) and spec[0] in ("fn", "fnlist"):
+        return spec[0]
     if isinstance(spec, tuple):
         return "lazy"
     if isinstance(spec, list):
@@ -64,11 +91,20 @@ def table():
     return {k: v[1] for k, v in E.elements.items()}
 
 
+FN_VALUES = [("fn",), ("fnlist",)]
+
+
 def tuples_for(arity, tier):
     if arity == 0:
         return [()]
+    if arity == 1:
+        dom = V_FULL if tier == "thorough" else V_QUICK
+        return [(d,) for d in dom] + [(f,) for f in FN_VALUES]   # monads also see a function and a list holding one
+    if arity == 2:
+        dom = V_FULL if tier == "thorough" else V_QUICK
+        return list(itertools.product(dom, repeat=2)) + [(f, d) for f in FN_VALUES for d in (3, [1, 2, 3])] + [(d, f) for f in FN_VALUES for d in (3, [1, 2, 3])]
     if arity >= 3:
-        dom = V_TRIAD if tier == "thorough" else V_TRIAD[:4] + [V_TRIAD[5]]
+        dom = V_TRIAD if tier == "thorough" else V_TRIAD[:4] + V_TRIAD[5:]
         return list(itertools.product(dom, repeat=3))
     dom = V_FULL if tier == "thorough" else V_QUICK
     return list(itertools.product(dom, repeat=arity))
